@@ -176,7 +176,7 @@ def hier_cases(draw, tier):
     rawpo = draw(st.lists(st.integers(0, 9999), min_size=1, max_size=4))
     seq = draw(st.lists(st.tuples(st.sampled_from(['copy', 'pickle', 'elim', 'subst', 'subst', 'resolve']), st.integers(0, 9)), min_size=1, max_size=5))
     pats = draw(st.lists(st.integers(0, (1 << 16) - 1), min_size=16, max_size=16))
-    return dict(warm=draw(st.sampled_from([0, 0, 1])), subs=subs, npi=npi, raw=[[a, list(b), c] for a, b, c in raw], rawd=rawd, rawpo=rawpo, seq=[list(x) for x in seq], pats=pats)
+    return dict(warm=draw(st.sampled_from([0, 0, 1])), pfx=draw(st.sampled_from([0, 0, 1])), subs=subs, npi=npi, raw=[[a, list(b), c] for a, b, c in raw], rawd=rawd, rawpo=rawpo, seq=[list(x) for x in seq], pats=pats)
 
 
 def elaborate(case):
@@ -210,8 +210,10 @@ def build_top(case):
     insts, dffs, po = elaborate(case)
     c = Circuit('top')
     srcnode = {}
+    # with 'pfx' the primary inputs (and their forks) are called x<k>i: the name of instance x<k> is then a prefix of a port name
+    nm = (lambda s_: f'x{s_[1:]}i' if s_[0] == 'i' else s_) if case.get('pfx') else (lambda s_: s_)
     for k in range(case['npi']):
-        n = Node(c, f'i{k}', 'input'); c.io_nodes.append(n)
+        n = Node(c, nm(f'i{k}'), 'input'); c.io_nodes.append(n)
         srcnode[f'i{k}'] = (n, 0)
     dnodes = []
     for k in range(len(dffs)):
@@ -226,7 +228,7 @@ def build_top(case):
 
     def fork(src):
         if src not in forks:
-            f = Node(c, src)
+            f = Node(c, nm(src))
             d, pin = srcnode[src]
             Line(c, (d, pin), f)
             forks[src] = f
@@ -395,7 +397,7 @@ def prop_hier(case):
         keep = [(i, k) for i, names in enumerate(inst_st_names) for k, nm in enumerate(names) if nm in present]
         if rpo2 != rpo or rdff2 != rdff or any(rinst2[i][k] != rinst[i][k] for i, k in keep):
             raise Violation(f'state elements {missing} were removed by substitution although they influence observable signals')
-    got = sim_table(c, [f'i{k}' for k in range(case['npi'])], used_state, [f'o{k}' for k in range(len(po))], combos)
+    got = sim_table(c, [(f'x{k}i' if case.get('pfx') else f'i{k}') for k in range(case['npi'])], used_state, [f'o{k}' for k in range(len(po))], combos)
 
     def cmp(name, bits, what):
         exp = [(bits >> t) & 1 for t in range(sims)]
